@@ -50,6 +50,8 @@ func isForkPkg(p *ssa.Package) bool {
 
 // addrRoot walks an address expression down to its root and describes the access path.
 // local=true when the root is a non-escaping-to-params function-local allocation.
+var phiDepth int
+
 func addrRoot(v ssa.Value) (root ssa.Value, desc string, firstField string) {
 	for {
 		switch a := v.(type) {
@@ -93,7 +95,40 @@ func addrRoot(v ssa.Value) (root ssa.Value, desc string, firstField string) {
 			v = a.Tuple
 			continue
 		case *ssa.Phi:
-			// follow the first non-nil edge only for description purposes; callers treat phi as non-local
+			// `m, ok := x.f[k]; if !ok { m = make(...); x.f[k] = m }`: a phi of a value found under a field and a
+			// fresh one is rooted where its non-fresh edges are rooted, if they agree
+			if phiDepth < 4 {
+				phiDepth++
+				var rt ssa.Value
+				ff, dd := "", ""
+				agree, nonLocal := true, 0
+				for _, e := range a.Edges {
+					if e == ssa.Value(a) {
+						continue
+					}
+					r2, d2, f2 := addrRoot(e)
+					if localRoot(r2) && f2 == "" {
+						continue
+					}
+					nonLocal++
+					if rt == nil {
+						rt, dd, ff = r2, d2, f2
+					} else if f2 != ff || (f2 == "" && r2 != rt) {
+						agree = false
+					}
+				}
+				phiDepth--
+				if agree && nonLocal > 0 {
+					if firstField == "" {
+						firstField = ff
+					}
+					return rt, dd + desc, firstField
+				}
+				if nonLocal == 0 && len(a.Edges) > 0 {
+					r2, _, _ := addrRoot(a.Edges[0])
+					return r2, desc, firstField
+				}
+			}
 			return a, desc, firstField
 		}
 		return v, desc, firstField
